@@ -958,6 +958,10 @@ class NDInterp(Interp):
         where, out = k.get('where', True), k.get('out')
         if out is None or not isinstance(out, NDArr) or not out.is_whole():
             raise Unsupported('np.divide(where=) needs a whole-array out=')
+        if out.dtype in ('int', 'bool'):
+            # [A] numpy: true division yields a floating result, which cannot be cast into an integer / Boolean out= array
+            # under the default same_kind rule (numpy.core._exceptions._UFuncOutputCastingError, a TypeError)
+            raise PyRaise('TypeError', note="Cannot cast ufunc 'divide' output to an integer array")
         old_out = out.buf.get
 
         def f(p, q_, w, o):
